@@ -195,6 +195,9 @@ func cmdC09(args []string) {
 					rw, reason := rewrite.Locate(p.Fset, f, src, c.Info.Name, w)
 					if rw == nil {
 						if reason != "none" {
+							if os.Getenv("VERIF_DEBUG") != "" {
+								fmt.Fprintf(os.Stderr, "DEBUG inconclusive %s %s: %s: %s\n", c.Info.Name, reason, p.Fset.Position(w.Pos), w.Text)
+							}
 							cnt.Add("inconclusive:"+c.Info.Name+":"+reason, 1)
 							cnt.Add("inconclusive_total", 1)
 						}
@@ -252,7 +255,12 @@ func cmdC09(args []string) {
 					}
 					if len(cp.errs) > 0 {
 						base["type_errors"] = cp.errs
-						viol("does-not-typecheck:"+errClass(cp.errs[0]), "file no longer type-checks after substitution: "+cp.errs[0])
+						cls := errClass(cp.errs[0])
+						if cls == "syntax" && strings.HasSuffix(rw.New, "}") && inStmtHeader(f, p.Fset.File(f.Package), rw.From) {
+							// narrow input class: a composite literal proposed at the top level of an if/for/switch header
+							cls = "composite-literal-in-statement-header"
+						}
+						viol("does-not-typecheck:"+cls, "file no longer type-checks after substitution: "+cp.errs[0])
 						rmScratch(sdir)
 						continue
 					}
@@ -288,6 +296,54 @@ func cmdC09(args []string) {
 							if typeStr(oldT) != typeStr(newT) {
 								base["old_type"], base["new_type"] = typeStr(oldT), typeStr(newT)
 								viol("type-changed", fmt.Sprintf("replaced expression changes type %s -> %s", typeStr(oldT), typeStr(newT)))
+							}
+						} else {
+							cnt.Add("type_preservation_unlocated", 1)
+							if os.Getenv("VERIF_DEBUG") != "" {
+								fmt.Fprintf(os.Stderr, "DEBUG unlocated %s old=%v new=%v: %s: %s\n", c.Info.Name, oldT != nil, newT != nil, p.Fset.Position(w.Pos), w.Text)
+							}
+							if oldT != nil && strings.TrimSpace(rw.New) == rw.New {
+								// the replaced text was an expression node; the replacement, in its new context, is
+								// not: the surrounding code captured part of it (precedence, `<-chan T(x)`, ...)
+								viol("replacement-reparsed", "in its context the replacement is no longer one expression (the surrounding code binds differently)")
+							}
+						}
+					}
+					if rw.Kind == "signature" {
+						// the declared function keeps its type (parameter names are not part of it)
+						tf := p.Fset.File(f.Package)
+						var oldT, newT types.Type
+						declOff := -1
+						for _, dd := range f.Decls {
+							if fd, ok := dd.(*ast.FuncDecl); ok && tf.Offset(fd.Pos()) <= rw.From && rw.To <= tf.Offset(fd.End()) {
+								declOff = tf.Offset(fd.Pos())
+								if o := p.Info.Defs[fd.Name]; o != nil {
+									oldT = o.Type()
+								}
+							}
+						}
+						for k, nf := range cp.files {
+							if filepath.Base(cp.paths[k]) != filepath.Base(path) {
+								continue
+							}
+							ntf := cp.fset.File(nf.Package)
+							shift := 0
+							if ns, err := os.ReadFile(cp.paths[k]); err == nil {
+								shift = len(ns) - (len(src) - (rw.To - rw.From) + len(rw.New))
+							}
+							for _, dd := range nf.Decls {
+								if fd, ok := dd.(*ast.FuncDecl); ok && ntf.Offset(fd.Pos()) == declOff+shift {
+									if o := cp.info.Defs[fd.Name]; o != nil {
+										newT = o.Type()
+									}
+								}
+							}
+						}
+						if oldT != nil && newT != nil {
+							cnt.Add("type_preservation_checks", 1)
+							if typeStr(oldT) != typeStr(newT) {
+								base["old_type"], base["new_type"] = typeStr(oldT), typeStr(newT)
+								viol("type-changed", fmt.Sprintf("the declared function changes type %s -> %s", typeStr(oldT), typeStr(newT)))
 							}
 						} else {
 							cnt.Add("type_preservation_unlocated", 1)
@@ -387,6 +443,32 @@ func dropImportNoise(errs []string) []string {
 }
 
 // errClass reduces a type error to a stable class name (positions and identifiers dropped).
+// inStmtHeader reports whether byte offset off lies in the header (before the opening brace of
+// the body) of an if, for, range, switch or type switch statement.
+func inStmtHeader(f *ast.File, tf *token.File, off int) bool {
+	found := false
+	ast.Inspect(f, func(n ast.Node) bool {
+		var body *ast.BlockStmt
+		switch s := n.(type) {
+		case *ast.IfStmt:
+			body = s.Body
+		case *ast.ForStmt:
+			body = s.Body
+		case *ast.RangeStmt:
+			body = s.Body
+		case *ast.SwitchStmt:
+			body = s.Body
+		case *ast.TypeSwitchStmt:
+			body = s.Body
+		}
+		if body != nil && tf.Offset(n.Pos()) <= off && off < tf.Offset(body.Lbrace) {
+			found = true
+		}
+		return !found
+	})
+	return found
+}
+
 func errClass(e string) string {
 	e = strings.SplitN(e, "\n", 2)[0]
 	table := []struct{ sub, class string }{
